@@ -109,6 +109,10 @@ def eval_expr(e: ast.expr, env: dict[str, Any], oracle: Oracle | None = None) ->
             else:
                 raise AnalysisError(f"f-string outside the language: {ast.unparse(e)}")
         return out
+    if isinstance(e, ast.Call) and isinstance(e.func, ast.Attribute) and e.func.attr in ("startswith", "endswith") and len(e.args) == 1 and not e.keywords:
+        recv = eval_expr(e.func.value, env, oracle)
+        if isinstance(recv, (str, bytes)):
+            return getattr(recv, e.func.attr)(eval_expr(e.args[0], env, oracle))
     if isinstance(e, ast.Call) and isinstance(e.func, ast.Attribute) and e.func.attr in ("decode", "hex", "upper", "lower") and not e.args and not e.keywords:
         recv = eval_expr(e.func.value, env, oracle)
         if isinstance(recv, (str, bytes)):
